@@ -79,12 +79,17 @@ func (c *remoteCache) GetKeys(ctx context.Context, name string, store cachepb.St
 				if e == nil {
 					continue //
 				}
-				outCh <- &Update{
+				select {
+				case <-ctx.Done():
+					// the consumer might be gone, do not block forever
+					return
+				case outCh <- &Update{
 					path:     e.Path,
 					value:    nil,
 					priority: e.Priority,
 					owner:    e.Owner,
 					ts:       int64(e.Timestamp),
+				}:
 				}
 			}
 		}
